@@ -1,0 +1,77 @@
+//go:build verif
+
+// Contracts for the gvc verifier (/verif). Comment-only file: it adds no code to the package.
+//
+// C19. S and T are abstract sorts. The user callbacks are specified, not verified (T8):
+//   addTx is a deterministic function: applyOK(s,t) tells whether t applies to s, applyState(s,t) is the result.
+package gtxbuf
+
+//@ spec applyOK(s TP_S, t TP_T) bool
+//@ spec applyState(s TP_S, t TP_T) TP_S
+//@ spec fold(base TP_S, txs []TP_T, k mathint) TP_S reads E:TP_T
+//@ spec allApply(base TP_S, txs []TP_T, k mathint) bool reads E:TP_T
+//@ axiom fold-zero: forall b TP_S, txs []TP_T, k mathint :: {fold(b, txs, k)} k <= 0 ==> fold(b, txs, k) == b
+//@ axiom fold-step: forall b TP_S, txs []TP_T, k mathint :: {fold(b, txs, k + 1)} k >= 0 ==> fold(b, txs, k + 1) == applyState(fold(b, txs, k), txs[k])
+//@ axiom allapply-zero: forall b TP_S, txs []TP_T, k mathint :: {allApply(b, txs, k)} k <= 0 ==> allApply(b, txs, k)
+//@ axiom allapply-step: forall b TP_S, txs []TP_T, k mathint :: {allApply(b, txs, k + 1)} k >= 0 ==>
+//@     allApply(b, txs, k + 1) == (allApply(b, txs, k) && applyOK(fold(b, txs, k), txs[k]))
+// Two slices with the same first k elements fold alike (induction step proved below; induction schema trusted).
+//@ axiom fold-ext: forall b TP_S, s []TP_T, t []TP_T, k mathint :: {fold(b, s, k), other(fold(b, t, k))}
+//@     (forall j int :: 0 <= j && j < k ==> s[j] == other(t[j])) ==> fold(b, s, k) == other(fold(b, t, k)) && allApply(b, s, k) == other(allApply(b, t, k))
+// (fold-ext relates two heaps: equal elements give equal folds. Its induction step:)
+//@ lemma[C19] fold-ext-step (without fold-ext): forall b TP_S, s []TP_T, t []TP_T, k mathint ::
+//@     k >= 0 && fold(b, s, k) == fold(b, t, k) && allApply(b, s, k) == allApply(b, t, k) && s[k] == t[k] ==>
+//@     fold(b, s, k + 1) == fold(b, t, k + 1) && allApply(b, s, k + 1) == allApply(b, t, k + 1)
+
+//@ func workingState.addTx(ctx, s, t)
+//@   trusted
+//@   ensures result1 == nil ==> applyOK(s, t) && result0 == applyState(s, t)
+//@   ensures result1 != nil ==> !applyOK(s, t)
+//@   modifies nothing
+
+//@ define curOf(w) = w.isUpdated ? w.curState : w.BaseState
+//@ define WInv(w) = allApply(w.BaseState, w.Txs, len(w.Txs)) && curOf(w) == fold(w.BaseState, w.Txs, len(w.Txs))
+
+//@ func workingState.CheckAddTx
+//@   property C19
+//@   requires WInv(w)
+//@   ensures appended-only-if-it-applies: result == nil ==> applyOK(old(curOf(w)), tx) && len(w.Txs) == old(len(w.Txs)) + 1 && w.Txs[old(len(w.Txs))] == tx &&
+//@       (forall j int :: 0 <= j && j < old(len(w.Txs)) ==> w.Txs[j] == old(w.Txs)[j])
+//@   ensures unfold-a: result == nil ==>
+//@       fold(w.BaseState, w.Txs, old(len(w.Txs)) + 1) == applyState(fold(w.BaseState, w.Txs, old(len(w.Txs))), w.Txs[old(len(w.Txs))])
+//@   ensures unfold-b: result == nil ==>
+//@       allApply(w.BaseState, w.Txs, old(len(w.Txs)) + 1) == (allApply(w.BaseState, w.Txs, old(len(w.Txs))) && applyOK(fold(w.BaseState, w.Txs, old(len(w.Txs))), w.Txs[old(len(w.Txs))]))
+//@   ensures unfold-c: result == nil ==> fold(w.BaseState, w.Txs, old(len(w.Txs))) == old(fold(w.BaseState, w.Txs, len(w.Txs))) &&
+//@       allApply(w.BaseState, w.Txs, old(len(w.Txs))) == old(allApply(w.BaseState, w.Txs, len(w.Txs)))
+//@   ensures pending-list-still-applies: result == nil ==> WInv(w)
+//@   ensures refused-changes-nothing: result != nil ==> w.Txs == old(w.Txs) && w.curState == old(w.curState) && w.isUpdated == old(w.isUpdated) && w.BaseState == old(w.BaseState)
+//@   modifies w.curState, w.isUpdated, w.Txs
+
+//@ func workingState.Buffered
+//@   property C19
+//@   ensures result-is-dst-then-pending: len(result) == len(dst) + len(w.Txs) &&
+//@       (forall j int :: 0 <= j && j < len(dst) ==> result[j] == dst[j]) &&
+//@       (forall j int :: 0 <= j && j < len(w.Txs) ==> result[len(dst) + j] == w.Txs[j])
+//@   modifies nothing
+
+// ---- Rebase ----
+// txDeleter (user callback, T8) and slices.DeleteFunc are used as black boxes here: the Rebase contract pins down the
+// base/current-state bookkeeping; "exactly the still-valid transactions are kept" (a sequence-filter statement) is
+// not decided by this contract (see DESIGN.md, C19).
+//@ func workingState.txDeleter(ctx, reject)
+//@   trusted
+//@   modifies nothing
+
+//@ func std:slices.DeleteFunc(s, del)
+//@   trusted
+//@   ensures len(result) <= len(s)
+//@   modifies s[*]
+
+//@ func workingState.Rebase
+//@   property C19
+//@   ensures base-replaced: w.BaseState == newBase
+//@   ensures current-state-is-base-unless-flagged: w.isUpdated || w.curState == newBase
+//@   ensures nothing-pending-fast-path: old(len(w.Txs)) == 0 ==> result.Err == nil && len(result.Invalidated) == 0 && !w.isUpdated && w.Txs == old(w.Txs)
+//@   ensures never-grows: result.Err == nil ==> len(w.Txs) <= old(len(w.Txs))
+//@   modifies w.BaseState, w.curState, w.isUpdated, w.Txs, old(w.Txs)[*]
+//@   loop 1 invariant w.BaseState == newBase && (w.isUpdated || w.curState == newBase) && len(w.Txs) <= old(len(w.Txs))
